@@ -368,5 +368,63 @@ Proof.
   rewrite E. auto.
 Qed.
 
-(* with [parse_script]: a rendering of the tokens of a well-formed script parses to its tree *)
+
+(* ---------------------------------------------------------------- the same with the white space written BEFORE each token *)
+
+Definition ltok := (bytes * tkind * bytes)%type.    (* white space, kind, text *)
+
+Fixpoint lrender (l : list ltok) : bytes :=
+  match l with [] => [] | (ws, k, v) :: r => ws ++ v ++ lrender r end.
+
+(* [X]: what follows the sequence *)
+Fixpoint lchain (l : list ltok) (X : bytes) : Prop :=
+  match l with
+  | [] => True
+  | (ws, k, v) :: r => all_space ws /\ tok_ok k v /\ after_ok k (lrender r ++ X) /\ lchain r X
+  end.
+
+Definition ltoks (l : list ltok) : list token := map (fun x => mk (snd (fst x)) (snd x)) l.
+
+Lemma lrender_app : forall a b, lrender (a ++ b) = lrender a ++ lrender b.
+Proof. induction a as [|[[ws k] v] a IH]; intro b; cbn [app lrender]; [reflexivity|]. rewrite IH, !app_assoc. reflexivity. Qed.
+
+Lemma ltoks_app : forall a b, ltoks (a ++ b) = ltoks a ++ ltoks b.
+Proof. intros. unfold ltoks. apply map_app. Qed.
+
+Lemma lchain_app : forall a b X, lchain a (lrender b ++ X) -> lchain b X -> lchain (a ++ b) X.
+Proof.
+  induction a as [|[[ws k] v] a IH]; intros b X Ha Hb; cbn [app lchain] in *; [exact Hb|].
+  destruct Ha as (A & B & C & D). split; [exact A|]. split; [exact B|].
+  split; [rewrite lrender_app, <- app_assoc; exact C|]. apply IH; assumption.
+Qed.
+
+Lemma lex_all_lrender : forall l fuel pos wend,
+  lchain l wend -> all_space wend -> length (lrender l ++ wend) < fuel ->
+  exists toks, lex_all fuel pos (lrender l ++ wend) = (toks, None) /\ map strip_pos toks = ltoks l.
+Proof.
+  induction l as [|[[ws k] v] r IH]; intros fuel pos wend Hc Hw Hf.
+  - cbn [lrender app] in *. destruct fuel as [|f]; [lia|]. cbn [lex_all].
+    assert (E : next_token pos wend = LEnd).
+    { unfold next_token. destruct (take_drop_stop is_space wend [] Hw I) as (_ & D). rewrite app_nil_r in D. rewrite D. reflexivity. }
+    rewrite E. exists []. auto.
+  - cbn [lrender lchain] in *. destruct Hc as (Hws & Hk & Ha & Hr).
+    destruct fuel as [|f]; [lia|]. cbn [lex_all].
+    replace ((ws ++ v ++ lrender r) ++ wend) with (ws ++ v ++ (lrender r ++ wend)) in * by (rewrite !app_assoc; reflexivity).
+    rewrite (next_token_tok k v (lrender r ++ wend) ws pos Hk Ha Hws). cbn [t_pos t_val].
+    assert (Hlen : length (lrender r ++ wend) < f).
+    { rewrite !app_length in *. destruct (scan_rules_tok k v _ Hk Ha) as (_ & c & r0 & -> & _). cbn [length] in Hf. lia. }
+    destruct (IH f (pos + length ws + length v) wend Hr Hw Hlen) as (toks & E & M).
+    rewrite E. eexists. split; [reflexivity|]. cbn [map ltoks fst snd]. unfold ltoks in M. rewrite M. reflexivity.
+Qed.
+
+Theorem lex_lrender : forall l wend,
+  lchain l wend -> all_space wend ->
+  snd (lex (lrender l ++ wend)) = None /\ map strip_pos (fst (lex (lrender l ++ wend))) = ltoks l.
+Proof.
+  intros l wend Hc Hw. unfold lex.
+  destruct (lex_all_lrender l (S (length (lrender l ++ wend))) 0 wend Hc Hw (Nat.lt_succ_diag_r _)) as (toks & E & M).
+  rewrite E. auto.
+Qed.
+
 Print Assumptions lex_render.
+Print Assumptions lex_lrender.
